@@ -8,6 +8,10 @@ CLAIMED = {
         text="Lean 4 proofs, for all strings and all transliteration tables, that the three sanitisers' outputs are legal identifiers in their position except for four explicitly characterised classes (recorded as known findings), that every Rust keyword is in the regenerated FORBIDDEN table, and that ensure_unique returns a fresh name; the model is tied to the code by a bounded-exhaustive + random differential run of the real functions on every check.",
         note="Trusted: Lean kernel (+ propext, Classical.choice, Quot.sound), any_ascii as a parameter of every theorem, inflections modelled on ASCII, the hand-written Rust keyword table, tools/extract.py, the harness. Scope-level uniqueness is judged on emitted code (E), not proved for the whole module.",
         ref="§6 C09"),
+    "C20": dict(
+        text="Lean 4 proofs over a model of the eventsource-stream parser and of EventStream::poll_next: completed lines are prefix-stable, draining is append-compatible, UTF-8 splitting is append-compatible, hence the inner result sequence is independent of chunking and Pending interleaving (chunk_invariance); poll_next yields one item per non-empty-data event, skips empty ones, continues after bad events, returns Pending only after an inner Pending and ends exactly at the end (poll_spec, no_lost_wakeup, exactly_once) — for all byte streams, chunkings and schedules. Tied to the code by running the real EventStream<Value> over scripted reqwest bodies (all chunkings of short streams + random).",
+        note="Trusted: Lean kernel; Sem/Sse.lean as a model of eventsource-stream 0.2.3/nom (validated only by the differential runs); reqwest body plumbing; dec (serde_json) is a parameter. Two inner-crate defects (trailing bare CR, leading BOM panic) are reproduced by the model and recorded as known findings.",
+        ref="§6 C20"),
 }
 PENDING = ["C01","C02","C03","C04","C05","C06","C07","C08","C10","C11","C12","C13","C14","C15","C16","C17","C18","C19","C20"]
 
